@@ -87,6 +87,13 @@ class Check(FormulaCheck):
     def arg(self, rnd, tag):
         k = rnd.random()
         s = rnd.choice([1, -1])
+        if rnd.random() < 0.1:
+            # the doubles right beside the edge of a domain (1..8 ulps on either side of -1, 0, 1): in or out is decided there, not a casual epsilon away
+            import math
+            x = float(rnd.choice([1, -1, 0, 1, -1]))
+            for _ in range(rnd.choice([1, 1, 2, 3, 4, 8])):
+                x = math.nextafter(x, math.inf if s > 0 else -math.inf)
+            return x
         if tag == 'unit':
             return rnd.choice([-1, 1, 0, 0.5, -0.5, 1 - 1e-9, -1 + 1e-9, 1.0000001, -1.0000001, 2, -3, rnd.uniform(-1, 1), rnd.uniform(-1.2, 1.2), s * 10 ** rnd.uniform(-8, 0)])
         if tag == 'ge1':
